@@ -137,12 +137,12 @@ extern "C" void harness_class_chain() {
 
 // C08 dispatch kernel on a table built by the real buildClassTable:
 //   class A { int v;  virtual m() -> int { return 10; }  virtual m(int a) -> int { return 11; }  p(int a) -> int { return 40; }
-//             virtual q() -> int { return 50; }  virtual r() -> int { return this.v; } }
+//             virtual q() -> int { return 50; }  virtual r() -> int { return this.v; }  t() -> int { return m(); } }
 //   class B extends A { override m() -> int { return 20; }  n() -> int { return super.m(); }  p(long a) -> int { return 41; }
 //                       override q() -> int { return super.q(); }  override r() -> int { return super.r(); } }
 //   class C extends B { override m(int a) -> int { return 31; } }
 // P0 = static class of the variable (0 A, 1 B, 2 C), P1 = dynamic class of the object (>= P0),
-// P2 = call (0: o.m(), 1: o.m(<int>), 2: o.n(), 3: o.p(<int>), 4: o.q(), 5: o.r())
+// P2 = call (0: o.m(), 1: o.m(<int>), 2: o.n(), 3: o.p(<int>), 4: o.q(), 5: o.r(), 6: o.t())
 static std::unique_ptr<MethodDeclaration> returning(const char* name, int nparams, bool isVirtual, bool isOverride, std::unique_ptr<Expression> value) {
     auto m = method(name, nparams, isVirtual);
     m->isOverride = isOverride;
@@ -177,6 +177,11 @@ extern "C" void harness_dispatch() {
         thisV->member = "v";
         thisV->line = verif_nd_int(); thisV->column = verif_nd_int();
         cls[0]->members.push_back(returning("r", 0, true, false, std::move(thisV)));
+    }
+    {
+        auto um = std::make_unique<CallExpression>(std::make_unique<VariableExpression>("m"), std::vector<std::unique_ptr<Expression>>{});
+        um->line = verif_nd_int(); um->column = verif_nd_int();
+        cls[0]->members.push_back(returning("t", 0, false, false, std::move(um)));      // unqualified call of a virtual method
     }
     cls[1]->baseName = {"A"};
     cls[1]->members.push_back(returning("m", 0, false, true, lit("20")));
@@ -219,9 +224,9 @@ extern "C" void harness_dispatch() {
             ev.m_env.back()["k"] = {argv, false, true};
             args.push_back(std::make_unique<VariableExpression>("k"));
         }
-        auto e = memberCall(std::make_unique<VariableExpression>("o"), call == 2 ? "n" : call == 3 ? "p" : call == 4 ? "q" : call == 5 ? "r" : "m", std::move(args));
+        auto e = memberCall(std::make_unique<VariableExpression>("o"), call == 2 ? "n" : call == 3 ? "p" : call == 4 ? "q" : call == 5 ? "r" : call == 6 ? "t" : "m", std::move(args));
         Value r = ev.eval(e.get());
-        int expect = call == 0 ? (dyn == 0 ? 10 : 20) : call == 1 ? (dyn == 2 ? 31 : 11) : call == 2 ? 10 : call == 3 ? 40 : call == 4 ? 50 : fv.intValue;
+        int expect = call == 0 ? (dyn == 0 ? 10 : 20) : call == 1 ? (dyn == 2 ? 31 : 11) : call == 2 ? 10 : call == 3 ? 40 : call == 4 ? 50 : call == 5 ? fv.intValue : (dyn == 0 ? 10 : 20);
         verif_assert(r.type == Value::Type::Int, "C08: the call returns the int the selected body returns");
         verif_assert(r.intValue == expect, "C08: a virtual call runs the most-derived override of the receiver's dynamic class for the overload "
                                            "selected by the argument types (exact match over widening, at any level of the hierarchy); super.m() runs the base version on the same receiver");
